@@ -94,7 +94,7 @@ class Sim:
     """One simulated executor + event loop for one run."""
 
     def __init__(self, tape, max_workers=4, policy=None, faults=None, use_clock=False,
-                 step_cap=4000):
+                 step_cap=4000, clock=None):
         self.tape = tape
         self.max_workers = max_workers
         self.policy = policy or "random"
@@ -104,8 +104,8 @@ class Sim:
         self.log = []
         self.events = 0
         self.step_cap = step_cap
-        self.clock = SimClock()
-        self.use_clock = use_clock
+        self.clock = clock if clock is not None else SimClock()
+        self.use_clock = use_clock or clock is not None
         self.hooks = []  # called after every event with (sim, ev)
         self.max_conc = 0
         self.max_open = 0
